@@ -480,6 +480,118 @@ def sort_grid(tier):
     return fails, n
 
 
+def setof_eq_grid(tier):
+    """SET OF comparison against collections.Counter: equal iff the same elements the same number of times, whatever the
+    insertion order; != is its negation"""
+    import itertools, collections
+    from pyasn1.type import univ
+    fails, n = [], 0
+    maxlen = 3 if tier == 'quick' else 4
+    lists = [vals for L in range(0, maxlen + 1) for vals in itertools.product(range(1, 4), repeat=L)]
+    for x in lists:
+        for y in lists:
+            n += 1
+            a = univ.SetOf(componentType=univ.Integer())
+            a.clear()
+            a.extend(x)
+            b = univ.SetOf(componentType=univ.Integer())
+            b.clear()
+            b.extend(y)
+            want = collections.Counter(x) == collections.Counter(y)
+            try:
+                got, gotne = (a == b), (a != b)
+            except Exception as e:
+                fails.append(rec('SET OF %r == %r raised %s' % (list(x), list(y), type(e).__name__), history=['setof-eq-grid']))
+                continue
+            if got != want or gotne == want:
+                fails.append(rec('SET OF %r == %r gives %r (!= gives %r), the multisets are %s' % (
+                    list(x), list(y), got, gotne, 'equal' if want else 'different'), history=['setof-eq-grid'],
+                    container='SetOf', op='=='))
+    return fails, n
+
+
+def clone_grid(tier):
+    """clone(cloneValueFlag=True) of records in every state of completion (members unset, read-only placeholders, partly
+    filled nested records and collections): the copy has the abstract content of the original, and the two stay equal when
+    they are completed the same way"""
+    import itertools
+    from pyasn1.type import univ, namedtype
+    from pyasn1 import error
+    inner = univ.Sequence(componentType=namedtype.NamedTypes(
+        namedtype.NamedType('a', univ.Integer()), namedtype.NamedType('b', univ.Integer())))
+    proto = univ.Sequence(componentType=namedtype.NamedTypes(
+        namedtype.NamedType('inner', inner), namedtype.OptionalNamedType('n', univ.Integer()),
+        namedtype.OptionalNamedType('l', univ.SequenceOf(componentType=inner))))
+
+    def content(o):
+        """abstract content, read from the component stores themselves: the non-instantiating accessors hide members
+        that are not complete values, and the instantiating ones would change what is being compared"""
+        if o is univ.noValue:
+            return None
+        if isinstance(o, univ.SequenceOf):
+            if o._componentValues is univ.noValue:
+                return None
+            return [content(o._componentValues.get(i, univ.noValue)) for i in range(len(o))]
+        if isinstance(o, univ.Sequence):
+            if o._componentValues is univ.noValue:
+                return None
+            d = {}
+            for nm, c in zip(o.componentType.keys(), o._componentValues):
+                c = content(c)
+                if c not in (None, {}):
+                    d[nm] = c
+            return d
+        return int(o) if o.isValue else None
+
+    steps = [('inner.a', lambda o: o['inner'].__setitem__('a', 1)), ('inner.b', lambda o: o['inner'].__setitem__('b', 2)),
+             ('n', lambda o: o.__setitem__('n', 3)), ('read-n', lambda o: o['n']), ('read-inner', lambda o: o['inner']),
+             ('l[0].a', lambda o: o['l'][0].__setitem__('a', 4)), ('l[0].b', lambda o: o['l'][0].__setitem__('b', 5)),
+             ('l[1].a', lambda o: o['l'][len(o['l'])].__setitem__('a', 6))]
+    finish = [lambda o: o['inner'].__setitem__('a', 1), lambda o: o['inner'].__setitem__('b', 2)]
+    fails, n = [], 0
+    maxsteps = 3 if tier == 'quick' else 4
+    for L in range(0, maxsteps + 1):
+        for combo in itertools.permutations(range(len(steps)), L):
+            n += 1
+            hist = [steps[i][0] for i in combo]
+            o = proto.clone()
+            try:
+                for i in combo:
+                    steps[i][1](o)
+                c = o.clone(cloneValueFlag=True)
+                if content(c) != content(o):
+                    fails.append(rec('deep clone holds %r, the original %r' % (content(c), content(o)), history=hist,
+                                     container='Sequence', op='clone'))
+                    continue
+                if c.isValue != o.isValue:
+                    fails.append(rec('deep clone isValue=%r, the original %r' % (c.isValue, o.isValue), history=hist,
+                                     container='Sequence', op='clone'))
+                    continue
+                for f in finish:
+                    f(o)
+                    f(c)
+                # rows of l that were started are completed as well
+                for obj in (o, c):
+                    lst = obj._componentValues[2] if len(obj._componentValues) > 2 else univ.noValue
+                    if lst is not univ.noValue and lst._componentValues is not univ.noValue:
+                        for k in range(len(lst)):
+                            lst[k]['a'] = 4
+                            lst[k]['b'] = 5
+                if content(c) != content(o):
+                    fails.append(rec('after completing both the same way the clone holds %r, the original %r' % (
+                        content(c), content(o)), history=hist, container='Sequence', op='clone'))
+                    continue
+                if der(c) != der(o):
+                    fails.append(rec('after completing both the same way DER of the clone differs', history=hist,
+                                     container='Sequence', op='clone'))
+            except error.PyAsn1Error as e:
+                fails.append(rec('clone grid: PyAsn1Error %s' % str(e)[:100], history=hist, container='Sequence', op='clone'))
+            except Exception as e:
+                fails.append(rec('clone grid: %s %s' % (type(e).__name__, str(e)[:100]), history=hist, container='Sequence',
+                                 op='clone'))
+    return fails, n
+
+
 def main():
     ap = argparse.ArgumentParser()
     ap.add_argument('checks')
@@ -507,9 +619,10 @@ def main():
     f2, n2 = novalue_checks()
     fails += f2
     n += n2
-    f3, n3 = sort_grid(a.tier)
-    fails += f3
-    n += n3
+    for grid in (sort_grid, setof_eq_grid, clone_grid):
+        f3, n3 = grid(a.tier)
+        fails += f3
+        n += n3
     if a.replay:
         want = json.loads(a.replay)
         same = [x for x in fails if x['detail'][:60] == want['detail'][:60]] or []
